@@ -173,6 +173,8 @@ class QCow2(AlignedStream):
 
         offset = self.header.snapshots_offset
         for _ in range(self.header.nb_snapshots):
+            # Snapshot table entries are aligned to 8 byte boundaries
+            offset = (offset + 7) & ~7
             snapshots.append(QCow2Snapshot(self, offset))
             offset += snapshots[-1].entry_size
 
@@ -352,8 +354,9 @@ class QCow2Snapshot:
         extra_data = self.qcow2.fh.read(self.header.extra_data_size)
         self.extra = c_qcow2.QCowSnapshotExtraData(extra_data.ljust(len(c_qcow2.QCowSnapshotExtraData), b"\x00"))
 
+        # Anything beyond the extra data fields we know about is still part of the extra data we just read
         unknown_extra_size = self.header.extra_data_size - len(c_qcow2.QCowSnapshotExtraData)
-        self.unknown_extra = self.qcow2.fh.read(unknown_extra_size) if unknown_extra_size > 0 else None
+        self.unknown_extra = extra_data[len(c_qcow2.QCowSnapshotExtraData) :] if unknown_extra_size > 0 else None
 
         self.id_str = self.qcow2.fh.read(self.header.id_str_size).decode()
         self.name = self.qcow2.fh.read(self.header.name_size).decode()
